@@ -31,6 +31,18 @@ CHECKS = {
    note=TB + "Assumes the planner has no hidden state besides _ratios/_offsets and the two lru caches (validated by the "
         "fresh-process differential). Axioms: none.",
    tech="Rocq proof: cache-coherence invariant by induction over histories (parametric in the planner)", ref="DESIGN.md §4 C08"),
+ "C18": dict(
+   text="Theorems over the reals for every base b > 0 (b <> 1), prefix value p <> 0, power ratio k <> 0 and reference r > 0: C18_level_definition "
+        "(level = (k/p) log_b(q/r)), C18_quantify_definition, C18_roundtrip_quantity, C18_roundtrip_level, C18_level_equals_quantity (a level equals a "
+        "quantity iff it is that quantity's level), C18_monotone (b > 1, p > 0), C18_reference_unit_independent, C18_root_power. Tie A: the formulas of "
+        "LogarithmicUnit.level, Level.quantify and power_ratio are re-derived from the source by a fail-closed ast translator on every run and Coq checks they "
+        "are the modelled expression trees. Tie B: level values, quantify values, both round trips, level == quantity and monotonicity of the implementation "
+        "against the closed form in 60-digit decimal arithmetic over bel/decibel/neper/octave, prefixed and custom-base logarithms, power and root-power "
+        "references in mixed units.",
+   note=TB + "Axioms (standard library reals): ClassicalDedekindReals.sig_not_dec, ClassicalDedekindReals.sig_forall_dec, "
+        "FunctionalExtensionality.functional_extensionality_dep, Classical_Prop.classic. Rounding of math.log / ** is measured at 1e-9, not proved; the "
+        "model cannot be evaluated in the kernel (transcendental functions), so tie B is a numerical comparison against the proved closed form.",
+   tech="Rocq proof over R (ln/exp algebra) + source-to-expression translator checked by reflexivity; numerical comparison with the closed form", ref="DESIGN.md §4 C18"),
  "C19": dict(
    text="Registry machine (validate-then-mutate define/alias/derive/declare for units, prefixes, dimensions): Theorems C19_bound "
         "(faithfulness invariant over all operation sequences: a key is bound to o iff o reports it, hence never two objects), "
